@@ -56,6 +56,10 @@
 (*                   probing with flags = 0 would enter strict mode        *)
 (*   "PrctlErrorSwallowed" (never in the code; a seeded change) a failing  *)
 (*                   prctl(PR_SET_NO_NEW_PRIVS) does not stop the load     *)
+(*   "SharedDescriptor" (never in the code; a seeded change) the program  *)
+(*                   descriptor handed to seccomp(2) is a package variable: *)
+(*                   of two overlapping calls the one that reaches the      *)
+(*                   kernel last installs the other's program               *)
 (*   "PrctlBeforeAssemble" (never in the code; a seeded change) the bit is *)
 (*                   set first thing, before the policy is assembled and   *)
 (*                   before the goroutine is wired to its thread           *)
@@ -75,7 +79,8 @@ CONSTANTS Threads, MaxLoads, Dev,
                         \* seccomp(2) itself with ENOSYS (a container profile); it is filter id 0
           AllowDeny,    \* TRUE: the environment may put an enclosing filter on a thread that answers
                         \* prctl(2) with EPERM; filter ids -1, -2, ...
-          PolIds        \* the policies loads choose from (0: a policy of the load's own; k > 0: the shared policy k)
+          PolIds,       \* the policies loads choose from (0: a policy of the load's own; k > 0: the shared policy k)
+          AllowOther    \* TRUE: while a load is parked at the schedule point another thread may perform a complete load of its own
 
 VARIABLES threads, chain, nnp, strict, priv, pc, kind, m, locked, req, res, fid, loads, kret, synced
 vars == <<threads, chain, nnp, strict, priv, pc, kind, m, locked, req, res, fid, loads, kret, synced>>
@@ -165,6 +170,20 @@ KStrict(t, flagword) ==
   ELSE IF chain[t] # <<>> THEN [errno |-> "EINVAL", enter |-> FALSE]
   ELSE [errno |-> "", enter |-> TRUE]
 
+\* Calls overlap: while the call in flight is parked at the schedule point, another thread performs a complete LoadFilter call of its
+\* own (NoNewPrivs requested, no thread-sync, a valid policy of its own: filter id OtherId).  The calls share nothing - each installs
+\* its own program.  (At most one such call per call in flight; one atomic step, since nothing interleaves with IT here.)
+OtherId == 100 + loads
+OtherHappened == \E u \in Threads : \E i \in 1..Len(chain[u]) : chain[u][i] = OtherId
+OtherLoad(t) ==
+  /\ AllowOther /\ pc = "sched" /\ kind = "load" /\ t \in threads /\ t # m
+  /\ ~Blocked(t) /\ ~Denied(t) /\ ~strict[t] /\ ~OtherHappened
+  /\ nnp' = [nnp EXCEPT ![t] = TRUE]
+  /\ chain' = [chain EXCEPT ![t] = Append(@, OtherId)]
+  /\ UNCHANGED <<threads, strict, priv, pc, kind, m, locked, req, res, fid, loads, kret, synced>>
+\* the filter the call in flight attaches: its own
+AttachId == IF "SharedDescriptor" \in Dev /\ OtherHappened THEN OtherId ELSE fid
+
 ---------------------------------------------------------------------------
 (* Library                                                                 *)
 Call(t, k, r) ==
@@ -208,9 +227,9 @@ LF_Seccomp ==
      /\ kret' = [errno |-> k.errno, ret |-> k.ret, att |-> k.attach, nnpAt |-> nnp[m], flags |-> req.flags, t |-> m]
      /\ IF k.errno = "ENOSYS" /\ "PrctlFallback" \in Dev
         THEN \* prctl(PR_SET_SECCOMP, SECCOMP_MODE_FILTER): no flags, the calling thread only
-             chain' = [chain EXCEPT ![m] = Append(@, fid)] /\ UNCHANGED nnp
+             chain' = [chain EXCEPT ![m] = Append(@, AttachId)] /\ UNCHANGED nnp
         ELSE IF k.attach
-        THEN LET nc == Append(chain[m], fid) IN
+        THEN LET nc == Append(chain[m], AttachId) IN
              IF "TSYNC" \in req.flags
              THEN /\ chain' = [t \in Threads |-> IF t \in threads THEN nc ELSE chain[t]]
                   /\ nnp' = [t \in Threads |-> IF t \in threads THEN nnp[t] \/ nnp[m] ELSE nnp[t]]
@@ -248,6 +267,7 @@ EnvNext ==
   \/ \E p \in threads, n \in Threads : ThreadCreate(p, n)
   \/ \E t \in threads : AttemptMigrate(t)
   \/ \E t \in threads : AttemptMigrateAsm(t)
+  \/ \E t \in threads : OtherLoad(t)
 Next == LibNext \/ EnvNext
 Spec == Init /\ [][Next]_vars
 
